@@ -433,3 +433,54 @@ def _all_map_memo(ex):
 @spec("C10", "m_duration_parse", "duration_parse (MIR -> SMT, integers exact): for every count |N| <= 10^6 and every unit word bound by the pattern the result is N x unit length (month 30 d, year 365 d, twelve months one year); no panic, no Err")
 def _(ctx):
     run_duration_parse(ctx, 10 ** 6, True, "strict")
+
+
+# ============================================================================ C04
+def struct_fields(src_rel, struct):
+    """field names of a struct, in declaration order (= MIR field index), parsed from the source"""
+    import os, re
+    import common
+    text = open(os.path.join(common.REPO, src_rel), errors="replace").read()
+    m = re.search(r"struct\s+%s\s*\{(.*?)\n\}" % struct, text, re.S)
+    if not m:
+        raise Unsupported("struct %s not found in %s" % (struct, src_rel))
+    names = []
+    for line in m.group(1).split("\n"):
+        fm = re.match(r"\s*(?:pub(?:\([a-z]+\))?\s+)?(\w+)\s*:", line)
+        if fm:
+            names.append(fm.group(1))
+    return names
+
+
+@spec("C04", "m_set_text_cursor", "Session::set_text (MIR -> SMT/path enumeration): on every path (regex available or not) the new text's lines are stored and the line cursor is put back to 0, so that the next execute_session starts at the first line of the new text")
+def _(ctx):
+    ex = new_exec("real")
+    fields = struct_fields("src/session.rs", "Session")
+    pos_idx, parts_idx = fields.index("position"), fields.index("text_parts")
+    me = SymV(ex, "session", "session::Session")
+    text = ex.make_sym("text", "alloc::string::String")
+    fn = find_fn("set_text")
+    outs = list(ex.run(fn, [RefV(me), text], Path()))
+    ctx.part.functions.append("session::Session::set_text")
+    ctx.paths += len(outs)
+    cursor_sym = str(me.field(pos_idx, "Cell<usize>").t)
+    n_ret = 0
+    for o in outs:
+        if o.kind == "panic":
+            ctx.reachable(ex, o.path, "set_text can panic: " + o.msg)
+            continue
+        n_ret += 1
+        stored_parts = any(e[0] == "store" and e[2] == parts_idx for e in o.path.events)
+        reset = False
+        for e in o.path.events:
+            if e[0] == "cell_set" and e[1] == cursor_sym and isinstance(e[2], IntV):
+                reset = z3.is_true(z3.simplify(e[2].t == 0))
+            if e[0] == "store" and e[2] == pos_idx and isinstance(e[4], IntV):
+                reset = z3.is_true(z3.simplify(e[4].t == 0))
+        ctx.part.queries += 1
+        if not stored_parts:
+            ctx.failures.append(("set_text has a path that does not store the new lines", {}, ("k_replay_session_reuse", [])))
+        if not reset:
+            ctx.failures.append(("set_text leaves the line cursor where the previous text ended (a re-used session skips lines / returns no slots)", {}, ("k_replay_session_reuse", [])))
+    if not n_ret:
+        ctx.failures.append(("set_text has no returning path", {}, None))
